@@ -30,12 +30,17 @@ const MAX_NESTING_DEPTH: usize = 32;
 /// Calls whose result depends on when they run, these are never evaluated by the compiler.
 const CLOCK_FUNCTIONS: &[&str] = &["now", "timestamp"];
 
+/// 2^63, only valid as an int literal directly behind a unary minus.
+const MIN_INT_MAGNITUDE: u64 = 1 << 63;
+
 pub struct CelCompiler<'l> {
     tokenizer: &'l mut dyn Tokenizer,
     bindings: BindContext<'l>,
 
     next_label: u32,
     depth: usize,
+    // set while the operand of a unary minus is the literal 9223372036854775808
+    min_int_literal: bool,
 }
 
 impl<'l> CelCompiler<'l> {
@@ -45,6 +50,7 @@ impl<'l> CelCompiler<'l> {
             bindings: BindContext::for_compile(),
             next_label: 0,
             depth: 0,
+            min_int_literal: false,
         }
     }
 
@@ -870,7 +876,18 @@ impl<'l> CelCompiler<'l> {
                 ))
             }
             Some(Token::Minus) => {
-                let (neg, neg_ast) = self.parse_neg_list()?;
+                let (mut neg, neg_ast) = self.parse_neg_list()?;
+
+                // -9223372036854775808: the magnitude does not fit an int on its own,
+                // read it together with the sign in front of it.
+                if let Some(Token::IntLit(MIN_INT_MAGNITUDE)) = self.tokenizer.peek()?.as_token() {
+                    self.min_int_literal = true;
+                    neg = CompiledProg::with_code_points(vec![
+                        ByteCode::Neg.into();
+                        neg.bytecode_len() - 1
+                    ]);
+                }
+
                 let (member, member_ast) = self.parse_member()?;
 
                 let range = member_ast.range().surrounding(neg_ast.range());
@@ -1335,13 +1352,23 @@ impl<'l> CelCompiler<'l> {
             Some(TokenWithLoc {
                 token: Token::IntLit(val),
                 loc,
-            }) => Ok((
-                CompiledProg::with_const((val as i64).into()),
-                AstNode::new(
-                    Primary::Literal(LiteralsAndKeywords::IntegerLit(val as i64)),
-                    loc,
-                ),
-            )),
+            }) => {
+                let negated_min = std::mem::take(&mut self.min_int_literal);
+                let val = match i64::try_from(val) {
+                    Ok(val) => val,
+                    Err(_) if negated_min && val == MIN_INT_MAGNITUDE => i64::MIN,
+                    Err(_) => {
+                        return Err(SyntaxError::from_location(loc.start())
+                            .with_message(format!("Integer literal {} is out of range", val))
+                            .into())
+                    }
+                };
+
+                Ok((
+                    CompiledProg::with_const(val.into()),
+                    AstNode::new(Primary::Literal(LiteralsAndKeywords::IntegerLit(val)), loc),
+                ))
+            }
             Some(TokenWithLoc {
                 token: Token::FloatLit(val),
                 loc,
